@@ -15,6 +15,12 @@ claimed = {
  "C11": dict(level="model_checking", engine="E1-sched", technique="stateless model checking of the real hub under a controlled scheduler: delay-bounded DFS over all schedules of ~8k scenario templates, porcupine linearizability oracle",
    text="The real internal/peers hub (instrumented at build time: goroutines, channels, locks, timers become scheduler operations) is driven by scenario templates of 2-3 threads x 1-2 operations on one shared session plus an uninvolved session; every schedule within delay bound 2 (quick) / 3 (thorough) is executed and checked for panics (a send on a closed channel panics exactly as in Go), deadlocks, linearizability of Add/remove/List/SendTo against a sequential map (porcupine), routability of connected peers, absence of left peers, and table leaks.",
    note="Trusted: the vrt runtime's channel/lock/timer semantics (Appendix A); data races on plain variables are outside the explorer (sequentially consistent, preempts only at synchronisation points). Bounds: <=3 worker threads, <=2 ops per thread, delay bound 2/3.", ref="§4 C11"),
+ "C03": dict(level="model_checking", engine="E1-sched", technique="stateless model checking of the real sender/receiver pair under a controlled scheduler over a QUIC environment model: configuration grid at deviation bound 0, tight set at bound 1, selected resume cases at bound 2",
+   text="The real SendManifestMultiStream and RecvManifestMultiStream (instrumented at build time) run as two thread groups over the vquic model, wrapped by the repository's transferquic and multiConn code. A grid of (files 0-3) x (chunks 0-3) x streams {1,2,3,4,8} x connections {1,2,3} x resume state {off, fresh, partial, complete, first-chunk, holes} x latency {0, 200 ms} plus legal-name trees is executed; every schedule within the deviation bound is enumerated and each execution must end with both sides returning nil - a deadlock (nothing enabled, no timer) or 60 virtual seconds without transport or disk progress is a hang.",
+   note="Trusted: vquic model (stream visibility on first frame, FIN/close semantics, in-order delivery with optional latency) and the vrt runtime. Bounded: trees up to 3 files x 3 chunks, deviation bound 0/1/2 as stated in the evidence; real quic-go internals are not scheduled.", ref="§4 C03"),
+ "C01": dict(level="model_checking", engine="E1-sched", technique="stateless model checking of the real sender/receiver pair (controlled scheduler, QUIC model): configuration grid x schedules within the deviation bound, tree-equality oracle on every successful execution",
+   text="Same harness as C03. Trees with file sizes around chunk boundaries (0, 1, c-1, c, c+1, 2c, 2c+1, 3c-1 for c in {1,4}), nesting, empty directories and the empty manifest are crossed with streams {1,2,4}, connections {1,2}, resume states (off, fresh, partial, complete, holes, first-chunk, stale longer/shorter files without metadata), latency, both root-directory modes and both scan modes; whenever both sides return nil the output directory must equal the source tree exactly (paths, lengths, bytes, nothing else besides the metadata directory).",
+   note="Trusted as for C03. The oracle only judges executions in which both sides report success. The in-memory MockTransport of the test suite is not used by this check (it is exercised by the repository's own tests); QUIC is the vquic model, not real quic-go.", ref="§4 C01"),
 }
 todo = {}
 props=[json.loads(l) for l in open('/verif/properties.jsonl')]
